@@ -68,7 +68,9 @@ Step(r) ==
     \* what result show / log show return - the in-flight run has not saved its pointer yet
     [] r.ev = "inflight_result_show" ->
           /\ LET tag == IF r.fault THEN "C13:" ELSE "C12:" IN
-             Check(IF st.last = 0 THEN (IF r.rc = 0 THEN {tag \o "result show during a run returned a document although no run has completed"} ELSE {})
+             \* (with a single slot the in-flight run has necessarily wiped the slot the pointer names: nothing is required)
+             Check(IF N = 1 THEN {}
+                   ELSE IF st.last = 0 THEN (IF r.rc = 0 THEN {tag \o "result show during a run returned a document although no run has completed"} ELSE {})
                    ELSE IF r.rc # 0 \/ r.run # st.last THEN {tag \o "result show during a run does not return the most recent completed run"} ELSE {})
           /\ UNCHANGED <<st, N, crashed, runs, beh>>
     [] OTHER          -> Check(ObsWhys(r)) /\ UNCHANGED <<st, N, crashed, runs, beh>>
